@@ -39,7 +39,7 @@ def floors(tier):
     return {"compared": 30000, "accepted": 8000, "rejected": 8000, "mutated_depth2plus": 1000,
             "metaschemas_self_accepted": 4, "keyword_shape_cells": 3000, "calibration_cases": 2000,
             "dialects_registered": 4, "checked_after_dialect_registration": 400,
-            "respelled_duplicates_in_unique_arrays": 500, "format_only_objections": 50, "checked_while_a_listing_is_pending": 1000, "decimal_valued_candidates": 20}
+            "respelled_duplicates_in_unique_arrays": 500, "format_only_objections": 50, "checked_while_a_listing_is_pending": 1000, "decimal_valued_candidates": 20, "enumerated_values_respelled": 600}
 
 
 def load_metaschemas():
@@ -241,6 +241,19 @@ def run(ctx):
                 cands += [{"exclusiveMinimum": val}, {"const": val}, {"exclusiveMaximum": val, "contains": {"minimum": val}}]
             for cand in cands:
                 compare(ctx, O, d, cand, tag="(Decimal-valued keywords)")
+    # where the metaschema lists the admissible values (the type names): the value spelled as an array of its characters,
+    # an array holding it, an object keyed by it - none of them IS it
+    for d in impl.DRAFTS:
+        for tname in ("null", "string", "integer", "object", "any"):
+            idx += 1
+            if not ctx.mine(idx):
+                continue
+            spellings = [list(tname), [list(tname)], {tname: None}, [tname, list(tname)], tname.upper(), tname + " ", [tname[:1], tname[1:]], list(tname)[::-1]]
+            for sp in spellings:
+                for cand in ({"type": sp}, {"properties": {"a": {"type": sp}}}, {"items": [{"type": sp}]}, {"disallow": sp} if d == 3 else {"not": {"type": sp}},
+                             {"definitions": {"t": {"type": sp}}}, {"additionalProperties": {"type": sp}}):
+                    ctx.count("enumerated_values_respelled")
+                    compare(ctx, O, d, cand, tag="(an enumerated value spelled as an array of its characters / wrapped / re-cased)")
     rng = ctx.rng
     dialect_phase(ctx, random.Random(1111))
     for i in range(ctx.scale(1500, 25000)):
